@@ -295,12 +295,15 @@ def _real(size, res, viol):
             viol("real:%s:log" % mode, "real run, %d bytes per stream, %s mode: stdout.log %d bytes, stderr.log %d bytes" % (size, mode, len(lo), len(le)), art)
         if mode == "sequential" and (want_o not in p.stdout or (size and want_e not in p.stderr)):
             viol("real:sequential:forward", "real run: the task's bytes were not forwarded verbatim to cond's stdout/stderr", art)
-        with open(os.path.join(d, "args.json")) as f:
-            if json.load(f) != ["x", 1]:
-                viol("real:args", "args.json wrong in real run", art)
-        with open(os.path.join(d, "options.json")) as f:
-            if json.load(f) != {"k": True}:
-                viol("real:options", "options.json wrong in real run", art)
+        for fname, want_v in (("args.json", ["x", 1]), ("options.json", {"k": True})):
+            try:
+                with open(os.path.join(d, fname)) as f:
+                    got_v = json.load(f)
+            except (OSError, ValueError) as ex:
+                viol("real:%s-unreadable" % fname, "real run: %s of an experiment with args and options cannot be read (%s)" % (fname, type(ex).__name__), art)
+                continue
+            if got_v != want_v:
+                viol("real:%s" % fname.split(".")[0], "%s wrong in real run: %r" % (fname, got_v), art)
     res["sample"] = {"real_process_bytes_per_stream": size}
     res["counters"]["real_process_runs"] = 2
 
